@@ -32,7 +32,10 @@ enum {
 	FM_LOOSE = 32,     // one unreferenced block
 	FM_SYMPOS = 64,    // symbolic vertex positions / uvs
 	FM_CHILDNODE = 128, // extra child node below a bone (deeper tree)
-	FM_LOOSECHAIN = 256 // unreferenced bhkCollisionObject -> bhkRigidBody -> bhkBoxShape chain, stored children first
+	FM_LOOSECHAIN = 256, // unreferenced bhkCollisionObject -> bhkRigidBody -> bhkBoxShape chain, stored children first
+	FM_SHAPEEXTRA = 512,  // NiStringExtraData assigned to the shape itself (listed before any tangent-space extra data)
+	FM_ROOT1 = 1024,      // with FM_LOOSE: the loose block is moved to index 0 and the root node to index 1
+	FM_SHAREDCOLL = 2048  // with FM_COLL: a second node references the same collision object
 };
 
 struct FmModel {
@@ -151,11 +154,31 @@ static inline FmModel fm_build(NifFile& nif, int ver, int feat) {
 		col->bodyRef.index = bodyId;
 		hdr.AddBlock(std::move(colS));
 	}
+	if (feat & FM_SHAPEEXTRA) {
+		auto sd = std::make_unique<NiStringExtraData>();
+		sd->name.get() = "ShapeNote";
+		sd->stringData.get() = "note";
+		nif.AssignExtraData(m.shape, std::move(sd));
+	}
+	if ((feat & FM_SHAREDCOLL) && (feat & FM_COLL) && ver != FM_FO4 && ver != FM_FO76) {
+		NiNode* bone = nif.FindBlockByName<NiNode>("Bone0");
+		if (bone)
+			bone->collisionRef.index = nif.GetRootNode()->collisionRef.index;
+	}
 	if (feat & FM_LOOSE) {
 		auto loose = std::make_unique<NiStringExtraData>();
 		loose->name.get() = "Loose";
 		loose->stringData.get() = "unreferenced";
-		hdr.AddBlock(std::move(loose));
+		uint32_t looseId = hdr.AddBlock(std::move(loose));
+		if (feat & FM_ROOT1) {
+			// new order: loose block first, root second, everything else shifted by one
+			uint32_t n = hdr.GetNumBlocks();
+			std::vector<uint32_t> order(n);
+			for (uint32_t i = 0; i < n; i++)
+				order[i] = i + 1;
+			order[looseId] = 0;
+			hdr.SetBlockOrder(order);
+		}
 	}
 	return m;
 }
